@@ -15,7 +15,7 @@ RULE = (
     "assignments of the detections and compared with the generating tree. non-trivial = tree with >= 1 operator or a selector; "
     "distinct by condition text."
 )
-RULE += (" " + 'Sub-space D: every selector condition text is parsed consecutively against different detection-name sets in both orders (parse results are cached per text); each parse must equal a first parse.')
+RULE += (" " + 'Sub-space D: every selector condition text is parsed consecutively against different detection-name sets in both orders (parse results are cached per text); each parse must equal a first parse; the same text is also parsed against one long-lived detections object whose detections are replaced in place (same count, other names) before each parse.')
 ASSUMPTIONS = [
     "each detection is one opaque atom {Fi: 'v'}; only selectors that match >= 1 detection are judged",
     "trees are the reference (conditions are printed from trees, no second parser)",
@@ -51,6 +51,9 @@ def ref_selector_matches(pattern, names):
 
 
 _DET = {}
+
+
+_LIVE = {}
 
 
 def detections_for(names):
@@ -152,6 +155,24 @@ def check_tree(res, t, names, sub):
             add_violation(res, "eval:unexpected-tree:" + type(e).__name__, case, "boolean tree", repr(e)[:200])
             continue
         res["outcomes"].add(h64(got))
+        if sub == "D" and got == want:
+            # one long-lived detections object per name count whose detections are replaced in place (as pipelines and callers do) before
+            # the same text is parsed against it: the tree must be built from the names the object holds now
+            live = _LIVE.get(len(names))
+            if live is None:
+                from sigma.rule import SigmaDetections
+
+                live = _LIVE[len(names)] = SigmaDetections.from_dict(dict({n: {f"F{i}": "v"} for i, n in enumerate(names)}, condition=names[0]))
+            else:
+                fresh = dict(detections_for(names).detections)
+                live.detections.clear()
+                live.detections.update(fresh)
+            try:
+                got_live = [eval_impl(SigmaCondition(text, live).parsed, full_env(e)) for e in envs]
+            except Exception as e:
+                got_live = repr(e)[:200]
+            if got_live != want:
+                add_violation(res, "function-differs:D:detections-object-renamed-in-place:" + kind, case, {"values": want[:8]}, {"values": got_live if isinstance(got_live, str) else got_live[:8]})
         if got != want:
             cls = token_class(text, names)
             sig = "function-differs:" + (",".join(cls) if cls else f"{sub}:{kind}")
